@@ -203,12 +203,13 @@ def run(ctx):
         if len(ctx.samples) < 4 and j["tag"] != "valid":
             ctx.sample(dict(mutation=j["tag"], options=j["otag"], rc=j["rc"], input_head=open(j["inp"], "rb").read()[:120].decode(errors="replace")))
     # thorough: valgrind memcheck on a subset (uninitialised reads are invisible to ASan)
-    if not ctx.quick and not fails:
+    if not fails:
         cliv = C.build_cli("plain")
-        sub = [j for j in jobs if j["rc"] == 0][:40]
+        nv = 14 if ctx.quick else 60
+        sub = [j for j in jobs if j["rc"] == 0][:nv] + [j for j in jobs if j["rc"] > 0 and j["otag"] not in ("bad-input-path",)][:nv // 2]
 
         def vg(j):
-            p = C.sh(["valgrind", "-q", "--error-exitcode=77", "--track-origins=no", cliv] + j["args"] + ["-q"], timeout=300, env={"OMP_NUM_THREADS": "1"})
+            p = C.sh(["valgrind", "-q", "--error-exitcode=77", "--track-origins=no", cliv] + j["args"] + ["-q"], timeout=600, env={"OMP_NUM_THREADS": "1"})
             return j, p.returncode, p.stderr.decode(errors="replace")[-3000:]
         with ThreadPoolExecutor(C.NCPU) as ex:
             for j, rc, err in ex.map(vg, sub):
